@@ -16,7 +16,7 @@ type c16 struct{}
 func (c16) ID() string    { return "C16" }
 func (c16) Level() string { return "fault_enumeration" }
 func (c16) Rule() string {
-	return "three environment keys at once, each {valueless and defined by the project environment with its own value, valueless and undefined, given a value, absent} x {list, mapping}; one key in every subset of the layers {project environment, env_file 1, 2, 3} x {no environment entry, with value, empty value, without value} x {list, mapping} spelling; two-key cross references (value ${K2} in env file j with K2 defined in exactly one of project environment / earlier file / earlier line / later file); every {present, absent} x {required, optional} state vector of the three env files; discard on/off; the same lattice for label_file 1..2 x labels; every case loaded through the real loader and compared with the layering reference. distinct = distinct (layer subset, outcome) pairs"
+	return "three environment keys at once, each {valueless and defined by the project environment with its own value, valueless and undefined, given a value, absent} x {list, mapping} x {default load, normalisation skipped, explicit WithServicesEnvironmentResolved}; one key in every subset of the layers {project environment, env_file 1, 2, 3} x {no environment entry, with value, empty value, without value} x {list, mapping} spelling; two-key cross references (value ${K2} in env file j with K2 defined in exactly one of project environment / earlier file / earlier line / later file); every {present, absent} x {required, optional} state vector of the three env files; discard on/off; the same lattice for label_file 1..2 x labels; every case loaded through the real loader and compared with the layering reference. distinct = distinct (layer subset, outcome) pairs"
 }
 func (c16) Assumptions() []string {
 	return []string{
@@ -34,10 +34,12 @@ func ptrStr(p *string) string {
 
 func (c16) Run(c *core.Ctx) {
 	// ---- three keys at once, each {valueless and defined by the project environment, valueless and undefined, given a value, absent}
-	for code := 0; code < 64; code++ {
+	// resolved by the loader's normalisation (default), by the environment resolution alone (normalisation skipped),
+	// and by an explicit WithServicesEnvironmentResolved on a project loaded with both skipped
+	for code := 0; code < 64*3; code++ {
 		for spelling := 0; spelling < 2; spelling++ {
-			code, spelling := code, spelling
-			id := fmt.Sprintf("env3/%02d/sp%d", code, spelling)
+			code, mode, spelling := code%64, code/64, spelling
+			id := fmt.Sprintf("env3/%02d/sp%d/mode%d", code, spelling, mode)
 			c.Do(id, func() core.Outcome {
 				env := map[string]string{}
 				var sb strings.Builder
@@ -83,8 +85,21 @@ func (c16) Run(c *core.Ctx) {
 				}
 				files := map[string]string{"compose.yaml": sb.String()}
 				s := &Scn{Files: files, Main: []string{"compose.yaml"}, Env: env, InMem: true}
+				switch mode {
+				case 1:
+					s.Opts = []func(*loader.Options){func(o *loader.Options) { o.SkipNormalization = true }}
+				case 2:
+					s.Opts = []func(*loader.Options){func(o *loader.Options) { o.SkipNormalization, o.SkipResolveEnvironment = true, true }}
+				}
 				p, err := s.LoadAt(Scratch())
-				sample := map[string]any{"case": id, "files": files, "env": env}
+				sample := map[string]any{"case": id, "files": files, "env": env, "mode": mode}
+				if err == nil && mode == 2 {
+					err = core.Try(func() error {
+						var e error
+						p, e = p.WithServicesEnvironmentResolved(false)
+						return e
+					})
+				}
 				if err != nil {
 					return core.Outcome{Class: "err", Sample: sample, Viol: &core.Violation{Key: "env:spurious-error", Msg: id + ": " + err.Error()}}
 				}
